@@ -101,7 +101,7 @@ pub fn sweep_flavours() -> Outcome {
     }
     let flavour = choose_free(3);
     // urls: none / one / several / malformed / empty list ; connections: none / one / several / empty list
-    let u = choose_free(5);
+    let u = choose_free(6);
     let c = choose_free(4);
     explorer::count_step();
     let urls: Option<Vec<String>> = match u {
@@ -109,7 +109,9 @@ pub fn sweep_flavours() -> Outcome {
         1 => Some(vec!["redis://127.0.0.1:7101".into()]),
         2 => Some(vec!["redis://127.0.0.1:7101".into(), "redis://127.0.0.1:7102/".into()]),
         3 => Some(vec!["redis://127.0.0.1:notaport".into()]),
-        _ => Some(vec![]),
+        4 => Some(vec![]),
+        // a malformed url in the middle of a list
+        _ => Some(vec!["redis://127.0.0.1:7101".into(), "redis://127.0.0.1:notaport".into(), "redis://127.0.0.1:7102".into()]),
     };
     let conns: Option<Vec<ConnectionInfo>> = match c {
         0 => None,
@@ -120,7 +122,7 @@ pub fn sweep_flavours() -> Outcome {
     // with neither named: the struct literal with both fields None, or the
     // flavour's `Config::default()` (which may itself name the local server)
     let from_default = u == 0 && c == 0 && choose_free(2) == 1;
-    if flavour == 0 && (u == 2 || c == 2 || u == 4 || c == 3) {
+    if flavour == 0 && (u == 2 || c == 2 || u == 4 || u == 5 || c == 3) {
         // the standalone config names a single url / connection
         return Outcome { obs: 0, violations: vec![] };
     }
@@ -222,7 +224,7 @@ pub fn sweep_flavours() -> Outcome {
             if allowed.is_empty() {
                 allowed = if flavour == 2 { [6379, 26379].into() } else { [6379].into() };
             }
-            if u == 3 && r == Ok(()) {
+            if (u == 3 || u == 5) && r == Ok(()) {
                 bad(&mut viol, "malformed-url-accepted", format!("{}: expected a configuration error, got {:?}", desc, r));
             }
             if !dialled.is_subset(&allowed) {
@@ -241,7 +243,7 @@ pub fn sweep_flavours() -> Outcome {
                     bad(&mut viol, "ambiguous-config-dialled", format!("{}: dialled {:?}", desc, dialled));
                 }
             }
-            (true, false) if u == 3 => {
+            (true, false) if u == 3 || u == 5 => {
                 if r != Err("redis".to_string()) {
                     bad(&mut viol, "malformed-url-accepted", format!("{}: expected a configuration error, got {:?}", desc, r));
                 }
@@ -267,6 +269,10 @@ pub fn sweep_flavours() -> Outcome {
                     bad(&mut viol, "valid-config-rejected", format!("{}: {:?}", desc, r));
                 } else if dialled.is_empty() || !dialled.is_subset(&named) {
                     bad(&mut viol, "wrong-servers-used", format!("{}: dialled {:?}, named {:?}", desc, dialled, named));
+                } else if dialled != named {
+                    // none of the listeners answers, so a client that was given
+                    // every named server has tried every one of them before get() fails
+                    bad(&mut viol, "named-server-not-used", format!("{}: dialled only {:?} of the named {:?} although none of them answered", desc, dialled, named));
                 }
             }
         },
